@@ -121,6 +121,18 @@ F('make_nterm_empty', r'constexpr\s+bool\s+make_nterm_empty\(size16_t nt\)', 'bo
   rules=[S(r'make_right_side_empty\(gi\.rule_infos\[([^\]]*)\]\)', r'vx_rs_empty0(&gi.rule_infos[\1])', name='abstract callee: make_right_side_empty')] + FN_COMMON + OBJ)
 
 
+AS_RULES = [
+    S(r'situation_info root_situation_info\{([^}]*)\};', r'situation_info root_situation_info = {\1};', name='R16:braced-init'),
+    S(r'state& s = states\[current_state\];', '', name='R3:state& (fields are separate arrays)'),
+    S(r'\bs\.all_situations_vec\.size\(\)', 'states__all_situations_vec[current_state].current_size', name='R4:size'),
+    S(r'\bs\.all_situations_vec\[i\]', 'states__all_situations_vec[current_state].the_data[vx_idx(i, states__all_situations_vec[current_state].current_size)]', name='R4:operator[]'),
+    S(r'\bs\.situations_by_symbol\[symbol_idx\]', '&states__situations_by_symbol[current_state][symbol_idx]', name='R5:ref-arg'),
+    S(r'(?<![\w.])closure\(', 'vx_closure_any(', min=0, name='abstract callee: closure'), S(r'(?<![\w.])transitions\(', 'vx_transitions_any(', min=0, name='abstract callee: transitions'),
+    S(r'(?<![\w.])add_situation\(', 'vx_add_situation_root(', min=0, name='abstract callee: add_situation'),
+]
+F('analyze_states', r'constexpr\s+size16_t\s+analyze_states\(\)', 'size16_t analyze_states(void)', scope=SA, rules=AS_RULES)
+
+
 def key_fragment(rx):
     def frag(body):
         m = re.search(rx, body)
